@@ -24,7 +24,17 @@ variable {T : Tables} (hT : TablesOK T) (hT2 : TablesOK2 T) {C : Cfg} (hC : CfgO
 
 /-! ### skipping up to a token -/
 
-theorem solid_pn {c : Nat} (h : inRanges T.pnChars c = true) : solid T c = true := by simp [solid, h]
+theorem prefixOK2_pre {p : List Nat} (h : prefixOK2 T p = true) : prefixOK T p = true := by
+  simp only [prefixOK2, Bool.and_eq_true] at h; exact h.1
+
+theorem prefixOK2_mem {p : List Nat} (h : prefixOK2 T p = true) : ∀ a ∈ p, a ≠ 0x1680 := by
+  intro a ha hh
+  subst hh
+  simp only [prefixOK2, Bool.and_eq_true, Bool.not_eq_true', List.contains_eq_mem, decide_eq_false_iff_not] at h
+  exact h.2 ha
+
+
+theorem solid_pn {c : Nat} (h : inRanges T.pnChars c = true) (hne : c ≠ 0x1680) : solid T c = true := by simp [solid, h, hne]
 
 theorem solid_delim {c : Nat} (h : c ∈ delims) (hw : isWsRune c = false) : solid T c = true := by
   simp [solid, hw, h]
@@ -43,7 +53,7 @@ theorem skipWs_solid {c : Nat} (hs : solid T c = true) (h23 : c ≠ 0x23) (r : L
           simp only [isWsRune, Bool.or_eq_true, decide_eq_true_eq] at hw
           rcases hw with ((hw | hw) | hw) | hw <;> subst hw <;> decide
         rw [pn_delim hT2 this] at hs
-        exact Bool.noConfusion hs
+        exact Bool.noConfusion hs.1
     · exact hs.2
   simp only [isWsRune, Bool.or_eq_false_iff, decide_eq_false_iff_not] at hw
   rw [skipWs]
@@ -107,14 +117,14 @@ theorem iriIRIREF_print (env : Env) (cs : List Choice) (r i A : List Nat) (hs : 
   simp only [iriIRIREF, hC.prod, Producers.real, decode_print_iriref T hT .eof cs r hs A, hres]
 
 include hT hC in
-theorem iriPName_print (env : Env) (cs : List Choice) (p l out i A : List Nat) (hp : prefixOK T p = true)
+theorem iriPName_print (env : Env) (cs : List Choice) (p l out i A : List Nat) (hp : prefixOK2 T p = true)
     (hps : Scalars p) (hs : Scalars l) (h : printPrefixedName T cs p l = some out)
     (hA : clash T .name A = false) (hex : env.expand p l = some i) :
     iriPName C .eof env (out ++ A) = .ok i A := by
-  simp only [iriPName, hC.prod, Producers.real, pname_tok hT cs p l out A hp hps hs h hA, hex]
+  simp only [iriPName, hC.prod, Producers.real, pname_tok hT cs p l out A (prefixOK2_pre hp) hps hs h hA, hex]
 
 include hT hC in
-theorem termPName_print (env : Env) (cs : List Choice) (p l out i A : List Nat) (hp : prefixOK T p = true)
+theorem termPName_print (env : Env) (cs : List Choice) (p l out i A : List Nat) (hp : prefixOK2 T p = true)
     (hps : Scalars p) (hs : Scalars l) (h : printPrefixedName T cs p l = some out)
     (hA : clash T .name A = false) (hex : env.expand p l = some i) :
     termPName C .eof env (out ++ A) = .ok (.iri i) A env := by
@@ -365,7 +375,7 @@ section pol
 variable {T : Tables} (hT : TablesOK T) (hT2 : TablesOK2 T) {C : Cfg} (hC : CfgOK T C)
 
 /-- first rune of a prefixed name -/
-def NameStart (T : Tables) (c : Nat) : Prop := c = 0x3a ∨ inRanges T.pnCharsBase c = true
+def NameStart (T : Tables) (c : Nat) : Prop := c = 0x3a ∨ (inRanges T.pnCharsBase c = true ∧ c ≠ 0x1680)
 
 theorem pname_shape {cs : List Choice} {p l out : List Nat} (h : printPrefixedName T cs p l = some out) :
     ∃ lo, out = p ++ 0x3a :: lo := by
@@ -373,15 +383,17 @@ theorem pname_shape {cs : List Choice} {p l out : List Nat} (h : printPrefixedNa
   obtain ⟨lo, _, rfl⟩ := h
   exact ⟨lo, rfl⟩
 
-theorem prefix_head {p : List Nat} (hp : prefixOK T p = true) (rest : List Nat) (c : Nat) (tl : List Nat)
+theorem prefix_head {p : List Nat} (hp : prefixOK2 T p = true) (rest : List Nat) (c : Nat) (tl : List Nat)
     (htext : p ++ 0x3a :: rest = c :: tl) : NameStart T c := by
   cases p with
   | nil => simp at htext; exact Or.inl htext.1.symm
   | cons a p' =>
     simp only [List.cons_append, List.cons.injEq] at htext
+    have hm := prefixOK2_mem hp a List.mem_cons_self
+    have hp := prefixOK2_pre hp
     simp only [prefixOK, Bool.and_eq_true] at hp
     rw [← htext.1]
-    exact Or.inr hp.1.1
+    exact Or.inr ⟨hp.1.1, hm⟩
 
 include hT2 in
 theorem nameStart_ne {c : Nat} (h : NameStart T c) {d : Nat} (hd : d ∈ delims) (hne : d ≠ 0x3a) : c ≠ d := by
@@ -389,11 +401,11 @@ theorem nameStart_ne {c : Nat} (h : NameStart T c) {d : Nat} (hd : d ∈ delims)
   subst hcd
   rcases h with h | h
   · exact hne h
-  · rw [pnB_delim hT2 hd] at h; exact Bool.noConfusion h
+  · rw [pnB_delim hT2 hd] at h; exact Bool.noConfusion h.1
 
 include hT2 in
 theorem nameStart_not_digit {c : Nat} (h : NameStart T c) : ¬(0x30 ≤ c ∧ c ≤ 0x39) ∧ c ≠ 0x2d ∧ c ≠ 0x5f := by
-  rcases h with h | h
+  rcases h with h | ⟨h, _⟩
   · subst h; decide
   · refine ⟨fun hd => ?_, fun hd => ?_, fun hd => ?_⟩
     · have := hT2.digit_base c (Or.inl (by simp [isDigit, NQ.isDigit, hd.1, hd.2]))
@@ -404,26 +416,28 @@ theorem nameStart_not_digit {c : Nat} (h : NameStart T c) : ¬(0x30 ≤ c ∧ c 
 
 include hT2 in
 theorem nameStart_solid {c : Nat} (h : NameStart T c) : solid T c = true ∧ c ≠ 0x23 := by
-  rcases h with h | h
+  rcases h with h | ⟨h, hne⟩
   · subst h; exact ⟨by simp [solid, delims, isWsRune], by decide⟩
-  · exact ⟨solid_pn (pnB_pn hT2 h), fun hc => by subst hc; rw [pnB_delim hT2 (by decide)] at h; exact Bool.noConfusion h⟩
+  · exact ⟨solid_pn (pnB_pn hT2 h) hne, fun hc => by subst hc; rw [pnB_delim hT2 (by decide)] at h; exact Bool.noConfusion h⟩
 
 /-- second rune of a prefixed name whose prefix is not empty: a name character, `.` or `:` -/
-theorem prefix_second {a : Nat} {p' : List Nat} (hp : prefixOK T (a :: p') = true) (rest : List Nat) :
-    ∃ b tl, p' ++ 0x3a :: rest = b :: tl ∧ (inRanges T.pnChars b = true ∨ b = 0x2e ∨ b = 0x3a) := by
+theorem prefix_second {a : Nat} {p' : List Nat} (hp : prefixOK2 T (a :: p') = true) (rest : List Nat) :
+    ∃ b tl, p' ++ 0x3a :: rest = b :: tl ∧ ((inRanges T.pnChars b = true ∧ b ≠ 0x1680) ∨ b = 0x2e ∨ b = 0x3a) := by
   cases p' with
   | nil => exact ⟨0x3a, rest, rfl, Or.inr (Or.inr rfl)⟩
   | cons b p'' =>
     refine ⟨b, p'' ++ 0x3a :: rest, rfl, ?_⟩
+    have hm := prefixOK2_mem hp b (by simp)
+    have hp := prefixOK2_pre hp
     simp only [prefixOK, Bool.and_eq_true, List.all_cons, Bool.or_eq_true, decide_eq_true_eq] at hp
     rcases hp.2.1.1 with h | h
-    · exact Or.inl h
+    · exact Or.inl ⟨h, hm⟩
     · exact Or.inr (Or.inl h)
 
 include hT2 in
-theorem second_solid {b : Nat} (h : inRanges T.pnChars b = true ∨ b = 0x2e ∨ b = 0x3a) : solid T b = true := by
+theorem second_solid {b : Nat} (h : (inRanges T.pnChars b = true ∧ b ≠ 0x1680) ∨ b = 0x2e ∨ b = 0x3a) : solid T b = true := by
   rcases h with h | h | h
-  · exact solid_pn h
+  · exact solid_pn h.1 h.2
   · subst h; simp [solid, delims, isWsRune]
   · subst h; simp [solid, delims, isWsRune]
 
@@ -474,7 +488,7 @@ theorem scanBoolean_other {p : List Nat} (hb : boolPrefixed p = false) (rest : L
 
 include hT2 hC in
 /-- `reader_scan_Object` on a prefixed name: hand over to `reader_scan_object_PrefixedName` -/
-theorem fn_object_pname (x : Ectx) (env : Env) {p : List Nat} (hp : prefixOK T p = true) (hb : boolPrefixed p = false)
+theorem fn_object_pname (x : Ectx) (env : Env) {p : List Nat} (hp : prefixOK2 T p = true) (hb : boolPrefixed p = false)
     (rest : List Nat) (c : Nat) (tl : List Nat) (htext : p ++ 0x3a :: rest = c :: tl) :
     stepFn C .eof .object x env (.rune c tl) = .ok { cur := some ⟨x, .objectPName⟩, inp := c :: tl, env := env } := by
   have hns := prefix_head hp rest c tl htext
@@ -483,7 +497,7 @@ theorem fn_object_pname (x : Ectx) (env : Env) {p : List Nat} (hp : prefixOK T p
   have hpb : (C.pnBase c = true ∨ c = 0x3a) := by
     rcases hns with h | h
     · exact Or.inr h
-    · exact Or.inl (by rw [hC.pnb]; exact h)
+    · exact Or.inl (by rw [hC.pnb]; exact h.1)
   simp only [stepFn, stepObject, n 0x3c (by decide) (by decide), nu, n 0x28 (by decide) (by decide),
     n 0x5b (by decide) (by decide), n 0x22 (by decide) (by decide), n 0x27 (by decide) (by decide),
     n 0x2b (by decide) (by decide), nm, nd, n 0x2e (by decide) (by decide), if_false, false_or, or_self, hpb, if_true]
@@ -493,7 +507,7 @@ theorem fn_object_pname (x : Ectx) (env : Env) {p : List Nat} (hp : prefixOK T p
 
 include hT hC in
 theorem fn_objectPName (x : Ectx) (env : Env) (cs : List Choice) (p l out i A : List Nat) (c : Nat) (tl : List Nat)
-    (htext : out ++ A = c :: tl) (hp : prefixOK T p = true)
+    (htext : out ++ A = c :: tl) (hp : prefixOK2 T p = true)
     (hps : Scalars p) (hs : Scalars l) (h : printPrefixedName T cs p l = some out)
     (hA : clash T .name A = false) (hex : env.expand p l = some i) :
     stepFn C .eof .objectPName x env (.rune c tl) = .ok { emit := some (mkStmt x (.iri i)), inp := A, env := env } := by
@@ -516,7 +530,7 @@ theorem stepPOL_a (x : Ectx) (env : Env) (w : Nat) (tl : List Nat) (hw : isWsRun
 
 include hT hT2 hC in
 theorem stepPOL_pname (x : Ectx) (env : Env) (cs : List Choice) (p l out i A : List Nat) (c : Nat) (tl : List Nat)
-    (htext : out ++ A = c :: tl) (hp : prefixOK T p = true)
+    (htext : out ++ A = c :: tl) (hp : prefixOK2 T p = true)
     (hps : Scalars p) (hs : Scalars l) (h : printPrefixedName T cs p l = some out)
     (hA : clash T .name A = false) (hex : env.expand p l = some i) :
     stepPOL C .eof x env c tl = polGo x (.iri i) A env := by
@@ -541,7 +555,7 @@ theorem stepPOL_pname (x : Ectx) (env : Env) (cs : List Choice) (p l out i A : L
   · have hpb : (c = 0x3a ∨ C.pnBase c = true) := by
       rcases hns with h | h
       · exact Or.inl h
-      · exact Or.inr (by rw [hC.pnb]; exact h)
+      · exact Or.inr (by rw [hC.pnb]; exact h.1)
     simp only [ha, if_false, hpb, if_true, hterm]
 
 theorem polGo_eq (x : Ectx) (p : TtlDoc.T) (inp : List Nat) (env : Env) :
@@ -619,7 +633,7 @@ theorem matchKw_exact (R : List Nat) : ∀ (u : List Nat), matchKw (u.map (fun c
 
 /-- the remaining runes of a prefix label, the colon, and whatever follows -/
 def Namey (T : Tables) (l : List Nat) : Prop :=
-  ∃ q R, l = q ++ 0x3a :: R ∧ ∀ a ∈ q, (inRanges T.pnChars a = true ∨ a = 0x2e) ∧ a ≠ 0x3a
+  ∃ q R, l = q ++ 0x3a :: R ∧ ∀ a ∈ q, (inRanges T.pnChars a = true ∨ a = 0x2e) ∧ a ≠ 0x3a ∧ a ≠ 0x1680
 
 include hT2 in
 theorem namey_head {l : List Nat} (h : Namey T l) :
@@ -630,7 +644,7 @@ theorem namey_head {l : List Nat} (h : Namey T l) :
   | cons b q' =>
     refine ⟨b, q' ++ 0x3a :: R, rfl, ?_, ?_⟩
     · rcases (hq b List.mem_cons_self).1 with h | h
-      · exact solid_pn h
+      · exact solid_pn h (hq b List.mem_cons_self).2.2
       · subst h; simp [solid, delims, isWsRune]
     · intro hb
       subst hb
@@ -665,12 +679,14 @@ theorem kwCI_ne (s : String) (h : ∀ c ∈ asc s, c ≠ 0x3a ∧ c + 0x20 ≠ 0
   obtain ⟨c, hc, rfl⟩ := hk
   exact h c hc
 
-theorem namey_of_prefix {a : Nat} {p' : List Nat} (hp : prefixOK T (a :: p') = true) (R : List Nat) :
+theorem namey_of_prefix {a : Nat} {p' : List Nat} (hp : prefixOK2 T (a :: p') = true) (R : List Nat) :
     Namey T (p' ++ 0x3a :: R) := by
   refine ⟨p', R, rfl, ?_⟩
   intro b hb
+  have hm := prefixOK2_mem hp b (List.mem_cons_of_mem _ hb)
+  have hp := prefixOK2_pre hp
   simp only [prefixOK, Bool.and_eq_true, List.all_eq_true, Bool.or_eq_true, decide_eq_true_eq, bne_iff_ne] at hp
-  exact hp.2 b hb
+  exact ⟨(hp.2 b hb).1, (hp.2 b hb).2, hm⟩
 
 /-- `kwFallback` is what the subject branch for prefixed names does anyway -/
 def pnameStart (C : Cfg) (x : Ectx) (env : Env) (c : Nat) (tl : List Nat) : FnRes :=
@@ -705,7 +721,7 @@ theorem stepKwSpace_pname (x : Ectx) (env : Env) (s : String) (hs : ∀ c ∈ as
 
 include hT2 hC in
 /-- the top-level scan function on a prefixed name, whatever letter it starts with -/
-theorem stepStatementRune_pname (x : Ectx) (env : Env) {p : List Nat} (hp : prefixOK T p = true) (R : List Nat)
+theorem stepStatementRune_pname (x : Ectx) (env : Env) {p : List Nat} (hp : prefixOK2 T p = true) (R : List Nat)
     (c : Nat) (tl : List Nat) (htext : p ++ 0x3a :: R = c :: tl) :
     stepStatementRune C .eof x env c tl = pnameStart C x env c tl := by
   have hns := prefix_head hp R c tl htext
@@ -731,7 +747,7 @@ theorem stepStatementRune_pname (x : Ectx) (env : Env) {p : List Nat} (hp : pref
         have hpb : (c = 0x3a ∨ C.pnBase c = true) := by
           rcases hns with h | h
           · exact Or.inl h
-          · exact Or.inr (by rw [hC.pnb]; exact h)
+          · exact Or.inr (by rw [hC.pnb]; exact h.1)
         simp only [stepSubjectStart, n 0x3c (by decide) (by decide), nu, n 0x5b (by decide) (by decide),
           n 0x28 (by decide) (by decide), if_false, hpb, if_true, pnameStart]
 
@@ -759,7 +775,7 @@ theorem fn_statement_ttl_bnode (htr : C.trig = false) (x : Ectx) (env : Env) (tl
   simp [stepFn, stepStatementRune_punct, stepSubjectStart, htr, withSelf]
 
 include hT2 hC in
-theorem fn_statement_ttl_pname (htr : C.trig = false) (x : Ectx) (env : Env) {p : List Nat} (hp : prefixOK T p = true)
+theorem fn_statement_ttl_pname (htr : C.trig = false) (x : Ectx) (env : Env) {p : List Nat} (hp : prefixOK2 T p = true)
     (R : List Nat) (c : Nat) (tl : List Nat) (htext : p ++ 0x3a :: R = c :: tl) :
     stepFn C .eof .statement x env (.rune c tl) =
       .ok { cur := some ⟨x, .subjPName⟩, push := [⟨x, .statement⟩, ⟨x, .triplesEnd⟩], inp := c :: tl, env := env } := by
@@ -805,7 +821,7 @@ theorem stepStatementRune_trig_bnode (htr : C.trig = true) (x : Ectx) (env : Env
 
 include hT hT2 hC in
 theorem stepStatementRune_trig_pname (htr : C.trig = true) (x : Ectx) (env : Env) (cs : List Choice) (p l out i A : List Nat)
-    (c : Nat) (tl : List Nat) (htext : out ++ A = c :: tl) (hp : prefixOK T p = true)
+    (c : Nat) (tl : List Nat) (htext : out ++ A = c :: tl) (hp : prefixOK2 T p = true)
     (hps : Scalars p) (hs : Scalars l) (h : printPrefixedName T cs p l = some out)
     (hA : clash T .name A = false) (hex : env.expand p l = some i) :
     stepStatementRune C .eof x env c tl = labelOrSubject x (.ok (.iri i) A env) := by
@@ -838,7 +854,7 @@ theorem fn_subjIRIREF (x : Ectx) (env : Env) (cs : List Choice) (r i A : List Na
 
 include hT hC in
 theorem fn_subjPName (x : Ectx) (env : Env) (cs : List Choice) (p l out i A : List Nat) (c : Nat) (tl : List Nat)
-    (htext : out ++ A = c :: tl) (hp : prefixOK T p = true)
+    (htext : out ++ A = c :: tl) (hp : prefixOK2 T p = true)
     (hps : Scalars p) (hs : Scalars l) (h : printPrefixedName T cs p l = some out)
     (hA : clash T .name A = false) (hex : env.expand p l = some i) :
     stepFn C .eof .subjPName x env (.rune c tl) = subjectTail x (.iri i) A env := by
@@ -957,7 +973,7 @@ theorem fn_triples_paren (x : Ectx) (env : Env) (tl : List Nat) :
   simp [stepFn, stepTriples]
 
 include hT2 hC in
-theorem fn_triples_pname (x : Ectx) (env : Env) {p : List Nat} (hp : prefixOK T p = true)
+theorem fn_triples_pname (x : Ectx) (env : Env) {p : List Nat} (hp : prefixOK2 T p = true)
     (R : List Nat) (c : Nat) (tl : List Nat) (htext : p ++ 0x3a :: R = c :: tl) :
     stepFn C .eof .triples x env (.rune c tl) = .ok { cur := some ⟨x, .subjPName⟩, inp := c :: tl, env := env } := by
   have hns := prefix_head hp R c tl htext
@@ -966,7 +982,7 @@ theorem fn_triples_pname (x : Ectx) (env : Env) {p : List Nat} (hp : prefixOK T 
   have hpb : (c = 0x3a ∨ C.pnBase c = true) := by
     rcases hns with h | h
     · exact Or.inl h
-    · exact Or.inr (by rw [hC.pnb]; exact h)
+    · exact Or.inr (by rw [hC.pnb]; exact h.1)
   simp only [stepFn, stepTriples, n 0x3c (by decide) (by decide), nu, n 0x5b (by decide) (by decide),
     n 0x28 (by decide) (by decide), if_false, hpb, if_true]
 
@@ -988,13 +1004,13 @@ theorem fn_statement_atbase (x : Ectx) (env : Env) (A : List Nat) :
   simp [stepFn, stepStatementRune, stepAtDirective, kwExact_eq, matchKw_exact, withSelf]
 
 include hT hC in
-theorem pnameNS_print (p A : List Nat) (hp : prefixOK T p = true) (hps : Scalars p) :
+theorem pnameNS_print (p A : List Nat) (hp : prefixOK2 T p = true) (hps : Scalars p) :
     C.P.pnameNS .eof (p ++ 0x3a :: A) = .ok p A := by
-  rw [hC.prod]; exact decode_print_pname_ns T .eof p A hp hps
+  rw [hC.prod]; exact decode_print_pname_ns T .eof p A (prefixOK2_pre hp) hps
 
 include hT hC in
 theorem fn_prefixNS (at_ : Bool) (x : Ectx) (env : Env) (p A : List Nat) (c : Nat) (tl : List Nat)
-    (htext : p ++ 0x3a :: A = c :: tl) (hp : prefixOK T p = true) (hps : Scalars p) :
+    (htext : p ++ 0x3a :: A = c :: tl) (hp : prefixOK2 T p = true) (hps : Scalars p) :
     stepFn C .eof (if at_ then .atPrefixNS else .sparqlPrefixNS) x env (.rune c tl) =
       .ok { cur := some ⟨x, if at_ then .atPrefixIRI p else .sparqlPrefixIRI p⟩, inp := A, env := env } := by
   cases at_ <;> simp [stepFn, ← htext, pnameNS_print hT hC p A hp hps]
